@@ -2,6 +2,8 @@
 Data file operations and readers/writers for the Python Iceberg implementation
 """
 
+import datetime
+import decimal
 import json
 import os
 import tempfile
@@ -539,6 +541,11 @@ class DataFileManager:
         float32_fields = {
             str(f["name"]) for f in iceberg_schema.fields if f.get("type") == "float"
         }
+        temporal_fields = {
+            str(f["name"]): str(f.get("type"))
+            for f in iceberg_schema.fields
+            if f.get("type") in ("date", "timestamp", "time")
+        }
         # Smallest magnitude that rounds to infinity as a 32-bit float (half-way
         # between FLT_MAX and 2**128; the tie rounds to even, i.e. up).
         float32_overflow = 3.4028235677973366e38
@@ -563,6 +570,36 @@ class DataFileManager:
                     raise ValueError(
                         f"Record {i}: value {value!r} for integer field '{name}' is not an "
                         f"integer; refusing to truncate it silently"
+                    )
+                # Same hazard through decimal.Decimal (what database drivers
+                # hand out): pyarrow truncates Decimal('7.9') to 7.
+                if isinstance(value, decimal.Decimal) and (
+                    not value.is_finite() or value != value.to_integral_value()
+                ):
+                    raise ValueError(
+                        f"Record {i}: value {value!r} for integer field '{name}' is not an "
+                        f"integer; refusing to truncate it silently"
+                    )
+            for name, kind in temporal_fields.items():
+                value = record.get(name)
+                problem = None
+                if isinstance(value, float):
+                    # pyarrow truncates the fraction and reads the rest as
+                    # days / microseconds since the epoch
+                    problem = "a float is not a point in time the column can hold exactly"
+                elif kind == "date" and isinstance(value, datetime.datetime) and (
+                    value.time() != datetime.time(0, 0) or value.tzinfo is not None
+                ):
+                    problem = "a datetime with a time of day (or zone) would be cut to its date"
+                elif kind == "timestamp" and isinstance(value, datetime.datetime) and value.tzinfo is not None:
+                    problem = (
+                        "a zone-aware datetime would be shifted to UTC and lose its zone "
+                        "(the column is a timestamp WITHOUT zone)"
+                    )
+                if problem:
+                    raise ValueError(
+                        f"Record {i}: value {value!r} for {kind} field '{name}': {problem}; "
+                        f"refusing to alter it silently"
                     )
             for name in float32_fields:
                 value = record.get(name)
